@@ -64,6 +64,7 @@ package connector
 //verif:call[flush-then-wait] (*Persister).WaitPendingWritesContext requires called("(*Persister).Flush")
 //verif:store[close-queue-after-writes-landed] deferredAckClosed requires called("(*Persister).Flush") && called("(*Persister).WaitPendingWritesContext")
 //verif:call[drain-delivery-before-stopping-stream] $field.stopStream requires called("(*Source).waitDeliveryDrain") && stored("deferredAckClosed")
+//verif:ensures[released-even-on-error] called("SourcePlugin.Teardown") ==> s.plugin == nil && s.Instance.connector == nil && called("(*Persister).ConnectorStopped")
 //verif:call[plugin-teardown-last] SourcePlugin.Teardown requires called("(*Source).waitDeliveryDrain") && called("(*WaitGroup).Wait") && stored("deferredAckClosed")
 
 // C06 / C11: a destination's stream is stopped and its goroutines joined before
